@@ -17,20 +17,24 @@ with one — every text containing a paragraph break splits this way, right afte
   ends in a digit and contains no newline, so the scan is harmless (`lexNumber_local`).
 * `document_append`: no condensing pass merges across the paragraph break, so the document of
   `P ++ D` is the document of `P` followed by the document of `D` moved by `|P|` characters and
-  `|tokens(P)|` token places (quote twins are token indices). Conditions, all decidable on the
-  lexer's tokens: `P`'s tokens end in a `Newline(k ≥ 2)` token and contain no quotation mark, and
-  `SpaceOK` — the blank-token quirk of `condense_spaces` (its cursor advances twice after a merge)
-  does not hit the first token of `D` (the quirk was repaired in `/repo`, finding
-  `c12-condense-spaces-skip`; see `spaceOK_no_longer_needed`).
+  `|tokens(P)|` token places (quote twins are token indices). Its conditions are about the
+  CHARACTERS of the two texts: `P = P0 ++ '\n'^k` with `k ≥ 2` and `P0` not ending in a newline,
+  no quotation-mark character in `P`, `D` not starting with a newline. (`parsePlain_ends_break`:
+  such a `P` lexes to tokens ending in `Newline(k)`; `parsePlain_noQuotes`.) The former condition
+  `SpaceOK` is gone: `condense_spaces` no longer advances its cursor twice (repaired finding
+  `c12-condense-spaces-skip`), and `condenseSpaces_barrier` holds unconditionally.
 * `iterParagraphs_append` / `iterSentences_append` / `iterChunks_append`: the pieces of two token
   vectors joined at a paragraph break are the pieces of the first followed by those of the second.
 * `lint_append`: a rule that is a function of one piece (`XLocal`: local and translation
   invariant) reports on `P ++ D` exactly its lints on `P` followed by its lints on `D` shifted by
   `|P|`; a group of such rules reports the same lints up to the interleaving of the rule-by-rule
   concatenation (`lintGroup_append`).
-* `paragraphs_separately`: all of the above composed — lexer, passes, paragraph iterator, rule.
-Which real rules are `XLocal` is not proved: it is what the oracle of `harness/src/c12.rs` tests on
-the real rule set on every run.
+* `paragraphs_separately` / `paragraphs_separately_group`: all of the above composed — from the
+  characters of `P` and `D` to the lints of one rule / of a group of rules.
+Assumptions left: the url / e-mail / hostname lexers are a parameter (`ExtOK`, `ExtLocal`, `ExtNoNl`:
+in bounds, local to each side, no newline inside a token — all monitored; `ExtLocal` fails for the
+recorded finding) and rule locality `XLocal`, which is not proved for any real rule: it is what the
+oracle of `harness/src/c12.rs` tests on the real rule set on every run.
 -/
 namespace Harper.C12
 open Harper Harper.Chunks
@@ -110,21 +114,59 @@ characters and `|tp|` token places -/
 def DocAppend' (cls : Cls) (ext : Ext) (src : List Char) (tp td : List Tok) (n : Nat) : Prop :=
   document cls ext src = .ok (tp ++ shiftDoc n tp.length td)
 
-/-- `Document::new (P ++ D)` = `Document::new P` followed by `Document::new D` moved behind it.
-`X ++ [brk]` are the lexer's tokens of `P` (they end in the paragraph's newline token), `td0`
-those of `D`. -/
-theorem document_append (cls : Cls) (hc : ClsOK cls) (P D : List Char) (hb : BoundaryOK P D)
+/-- token-level form: `X ++ [brk]` are the lexer's tokens of `P` (ending in the paragraph's newline
+token, without quotation marks), `td0` those of `D` -/
+theorem document_append_tokens (cls : Cls) (hc : ClsOK cls) (P D : List Char) (hb : BoundaryOK P D)
     (extP extD extPD : Ext) (hloc : ExtLocal extP extD extPD P.length)
     (hokP : ExtOK extP P.length) (hokD : ExtOK extD D.length)
     (X : List Tok) (brk : Tok) (k : Nat) (td0 : List Tok)
     (hP0 : parsePlain cls extP P = .ok (X ++ [brk])) (hD0 : parsePlain cls extD D = .ok td0)
-    (hbrk : brk.kind = .newline k) (hk : k ≥ 2) (hsp : SpaceOK X td0) (hnq : NoQuotes (X ++ [brk])) :
+    (hbrk : brk.kind = .newline k) (hk : k ≥ 2) (hnq : NoQuotes (X ++ [brk])) :
     ∃ A0 pb td, pb.kind = .paragraphBreak ∧ document cls extP P = .ok (A0 ++ [pb]) ∧
       document cls extD D = .ok td ∧
       DocAppend' cls extPD (P ++ D) (A0 ++ [pb]) td P.length ∧
       (∀ t ∈ A0 ++ [pb], t.span.stop ≤ P.length) :=
   document_append' cls hc P D hb extP extD extPD hloc hokP hokD X brk k td0 hP0 hD0 hbrk hk
-    (parsePlain_head cls extD D hb.2 td0 hD0) hsp hnq
+    (parsePlain_head cls extD D hb.2 td0 hD0) hnq
+
+/-- a text ending in a maximal run of `k` newlines lexes to tokens ending in `Newline(k)` -/
+theorem parsePlain_ends_break (cls : Cls) (hc : ClsOK cls) (ext : Ext) (P0 : List Char) (k : Nat) (hk : 1 ≤ k)
+    (hend : NoNlEnd P0) (hnl : ExtNoNl ext (P0 ++ List.replicate k '\n'))
+    (hok : ExtOK ext (P0 ++ List.replicate k '\n').length) (toks : List Tok)
+    (h : parsePlain cls ext (P0 ++ List.replicate k '\n') = .ok toks) :
+    ∃ X, toks = X ++ [⟨⟨P0.length, P0.length + k⟩, .newline k⟩] :=
+  Harper.parsePlain_ends_break cls hc ext P0 k hk hend hnl hok toks h
+
+/-- a text without quotation-mark characters has no quote token -/
+theorem parsePlain_noQuotes (cls : Cls) (ext : Ext) (P : List Char) (hq : NoQuoteChars P) (toks : List Tok)
+    (h : parsePlain cls ext P = .ok toks) : NoQuotes toks :=
+  Harper.parsePlain_noQuotes cls ext P hq toks h
+
+/-- no token other than a `Newline` token contains a newline (the url / e-mail / hostname lexers:
+by assumption `hext`) -/
+theorem token_has_no_newline (cls : Cls) (hc : ClsOK cls) (ext : Ext) (pos : Nat) (src : List Char)
+    (hext : ∀ k n, ext pos = some (k, n) → NoNl (src.take n)) (kd : Kind) (n : Nat)
+    (h : lexToken cls ext pos src = some (kd, n)) : NoNl (src.take n) ∨ AllNl (src.take n) :=
+  lexToken_chars cls hc ext pos src hext kd n h
+
+/-- **`Document::new (P ++ D)` = `Document::new P` followed by `Document::new D` moved behind it**,
+from conditions on the characters: `P = P0 ++ '\n'^k`, `k ≥ 2`, `P0` does not end in a newline,
+`P` contains no quotation mark, `D` does not start with a newline. -/
+theorem document_append (cls : Cls) (hc : ClsOK cls) (P0 D : List Char) (k : Nat) (hk : 2 ≤ k)
+    (hend : NoNlEnd P0) (hD : D.head? ≠ some '\n') (hq : NoQuoteChars (P0 ++ List.replicate k '\n'))
+    (extP extD extPD : Ext) (hloc : ExtLocal extP extD extPD (P0 ++ List.replicate k '\n').length)
+    (hokP : ExtOK extP (P0 ++ List.replicate k '\n').length) (hokD : ExtOK extD D.length)
+    (hnl : ExtNoNl extP (P0 ++ List.replicate k '\n')) :
+    ∃ A0 pb td, pb.kind = .paragraphBreak ∧
+      document cls extP (P0 ++ List.replicate k '\n') = .ok (A0 ++ [pb]) ∧
+      document cls extD D = .ok td ∧
+      DocAppend' cls extPD ((P0 ++ List.replicate k '\n') ++ D) (A0 ++ [pb]) td (P0 ++ List.replicate k '\n').length ∧
+      (∀ t ∈ A0 ++ [pb], t.span.stop ≤ (P0 ++ List.replicate k '\n').length) := by
+  obtain ⟨tp0, eP, _, _⟩ := C02.parsePlain_tiles cls extP _ hokP
+  obtain ⟨td0, eD, _, _⟩ := C02.parsePlain_tiles cls extD D hokD
+  obtain ⟨X, rfl⟩ := parsePlain_ends_break cls hc extP P0 k (by omega) hend hnl hokP tp0 eP
+  exact document_append_tokens cls hc _ D ⟨getLast?_append_replicate P0 k (by omega), hD⟩ extP extD extPD
+    hloc hokP hokD X _ k td0 eP eD rfl hk (parsePlain_noQuotes cls extP _ hq _ eP)
 
 /-- every condensing pass also commutes with moving the tokens and the text under them; e.g. -/
 theorem condenseSpaces_translation (k : Nat) (toks : List Tok) :
@@ -138,22 +180,28 @@ theorem latin_stops_at_break (src : List Char) (pb : Tok) (hpb : pb.kind = .para
 /-- regression witness of the repaired finding `c12-condense-spaces-skip`: `a·⇥¶¶` + `·⇥b` — before
 the fix of `condense_spaces` (cursor advanced twice after a merge) the blanks of the second paragraph
 stayed two tokens when checked together and were merged when checked separately; now both agree.
-(`SpaceOK` is therefore no longer needed by the code; `document_append` still carries it as a
-harmless extra hypothesis until the lemma `condenseSpaces_barrier` is restated without it.) -/
+`document_append` no longer has a condition about blanks: `condenseSpaces_barrier` is unconditional. -/
 theorem spaceOK_no_longer_needed :
     (document asciiCls (fun _ => none) (['a', ' ', '\t', '\n', '\n'] ++ [' ', '\t', 'b'])).toOption =
     (do let tp ← (document asciiCls (fun _ => none) ['a', ' ', '\t', '\n', '\n']).toOption
         let td ← (document asciiCls (fun _ => none) [' ', '\t', 'b']).toOption
         pure (tp ++ shiftDoc 5 tp.length td)) := by decide
 
-/-- the hypotheses of `document_append` are satisfiable (and its conclusion is then computed) -/
+/-- `condense_spaces` never merges across a token that is not a blank -/
+theorem condenseSpaces_barrier (X Y : List Tok) (brk : Tok) (hb : brk.kind.isSpace = false) :
+    condenseSpaces (X ++ brk :: Y) = condenseSpaces X ++ brk :: condenseSpaces Y :=
+  Harper.condenseSpaces_barrier X Y brk hb
+
+/-- the hypotheses of `document_append` are satisfiable -/
+example : NoNlEnd ['a', '.', ' '] ∧ NoQuoteChars (['a', '.', ' '] ++ List.replicate 2 '\n') ∧
+    ExtNoNl (fun _ => none) (['a', '.', ' '] ++ List.replicate 2 '\n') :=
+  ⟨by decide, by decide, fun _ _ _ h => by cases h⟩
+
+/-- … and its conclusion, computed -/
 example : (document asciiCls (fun _ => none) (['a', '.', ' ', '\n', '\n'] ++ [' ', '"', 'b', '"'])).toOption =
     (do let tp ← (document asciiCls (fun _ => none) ['a', '.', ' ', '\n', '\n']).toOption
         let td ← (document asciiCls (fun _ => none) [' ', '"', 'b', '"']).toOption
         pure (tp ++ shiftDoc 5 tp.length td)) := by decide
-
-example : SpaceOK [⟨⟨0, 1⟩, .word⟩, ⟨⟨1, 2⟩, .punct .Period⟩, ⟨⟨2, 3⟩, .space 1⟩] [⟨⟨0, 1⟩, .space 1⟩] → True :=
-  fun _ => trivial
 
 /-! ## pieces -/
 
@@ -235,20 +283,24 @@ theorem lintGroup_append (rs : List Rule) (hrs : ∀ r ∈ rs, XLocal r) (P D : 
     (fun r hr => lint_append r (hrs r hr) P D A0 brk hb td tpd hin hdoc)
 
 /-- **C12 for one paragraph-local rule, end to end**: lexer, condensing passes, paragraph iterator
-and rule composed. `P` is a paragraph followed by its break, free of quotation marks; `D` is any
-further text. The lints on `P ++ D` are the lints on `P` followed by the lints on `D` moved by `|P|`.
-Assumed, not proved: `ExtLocal` (url / e-mail / hostname lexers), `XLocal r` (the rule). -/
-theorem paragraphs_separately (cls : Cls) (hc : ClsOK cls) (P D : List Char) (hb : BoundaryOK P D)
-    (extP extD extPD : Ext) (hloc : ExtLocal extP extD extPD P.length)
-    (hokP : ExtOK extP P.length) (hokD : ExtOK extD D.length)
-    (X : List Tok) (brk : Tok) (k : Nat) (td0 : List Tok)
-    (hP0 : parsePlain cls extP P = .ok (X ++ [brk])) (hD0 : parsePlain cls extD D = .ok td0)
-    (hbrk : brk.kind = .newline k) (hk : k ≥ 2) (hsp : SpaceOK X td0) (hnq : NoQuotes (X ++ [brk]))
+and rule composed, from conditions on the characters. `P = P0 ++ '\n'^k` (`k ≥ 2`) is a paragraph
+followed by its break, free of quotation marks; `D` is any further text (not starting with a
+newline). The lints on `P ++ D` are the lints on `P` followed by the lints on `D` moved by `|P|`.
+Assumed, not proved: the url / e-mail / hostname lexers (`ExtOK`, `ExtLocal`, `ExtNoNl`) and
+`XLocal r` (the rule). -/
+theorem paragraphs_separately (cls : Cls) (hc : ClsOK cls) (P0 D : List Char) (k : Nat) (hk : 2 ≤ k)
+    (hend : NoNlEnd P0) (hD : D.head? ≠ some '\n') (hq : NoQuoteChars (P0 ++ List.replicate k '\n'))
+    (extP extD extPD : Ext) (hloc : ExtLocal extP extD extPD (P0 ++ List.replicate k '\n').length)
+    (hokP : ExtOK extP (P0 ++ List.replicate k '\n').length) (hokD : ExtOK extD D.length)
+    (hnl : ExtNoNl extP (P0 ++ List.replicate k '\n'))
     (r : Rule) (hr : XLocal r) :
-    ∃ lp ld, lintDoc cls extP iterParagraphs r P = .ok lp ∧ lintDoc cls extD iterParagraphs r D = .ok ld ∧
-      lintDoc cls extPD iterParagraphs r (P ++ D) = .ok (lp ++ shiftLints P.length ld) := by
+    ∃ lp ld, lintDoc cls extP iterParagraphs r (P0 ++ List.replicate k '\n') = .ok lp ∧
+      lintDoc cls extD iterParagraphs r D = .ok ld ∧
+      lintDoc cls extPD iterParagraphs r ((P0 ++ List.replicate k '\n') ++ D) =
+        .ok (lp ++ shiftLints (P0 ++ List.replicate k '\n').length ld) := by
   obtain ⟨A0, pb, td, hpb, eP, eD, ePD, hin⟩ :=
-    document_append cls hc P D hb extP extD extPD hloc hokP hokD X brk k td0 hP0 hD0 hbrk hk hsp hnq
+    document_append cls hc P0 D k hk hend hD hq extP extD extPD hloc hokP hokD hnl
+  generalize P0 ++ List.replicate k '\n' = P at *
   have hbk : pb.kind.isParagraphBreak = true := by rw [hpb]; rfl
   have ePD' : document cls extPD (P ++ D) = .ok ((A0 ++ [pb]) ++ shiftDoc P.length (A0 ++ [pb]).length td) := ePD
   refine ⟨lintBy iterParagraphs r P (A0 ++ [pb]), lintBy iterParagraphs r D td, ?_, ?_, ?_⟩
@@ -256,6 +308,31 @@ theorem paragraphs_separately (cls : Cls) (hc : ClsOK cls) (P D : List Char) (hb
   · simp only [lintDoc, eD, Except.map]
   · simp only [lintDoc, ePD', Except.map]
     rw [lint_append r hr P D A0 pb hbk td _ hin rfl]
+
+/-- **C12 for a group of paragraph-local rules, end to end**: the lints of the group on `P ++ D`
+are the lints on `P` together with the lints on `D` moved by `|P|` — the same lints; only the
+interleaving of the rule-by-rule concatenation differs (`List.Perm`). -/
+theorem paragraphs_separately_group (cls : Cls) (hc : ClsOK cls) (P0 D : List Char) (k : Nat) (hk : 2 ≤ k)
+    (hend : NoNlEnd P0) (hD : D.head? ≠ some '\n') (hq : NoQuoteChars (P0 ++ List.replicate k '\n'))
+    (extP extD extPD : Ext) (hloc : ExtLocal extP extD extPD (P0 ++ List.replicate k '\n').length)
+    (hokP : ExtOK extP (P0 ++ List.replicate k '\n').length) (hokD : ExtOK extD D.length)
+    (hnl : ExtNoNl extP (P0 ++ List.replicate k '\n'))
+    (rs : List Rule) (hrs : ∀ r ∈ rs, XLocal r) :
+    ∃ lp ld lpd, lintGroupDoc cls extP iterParagraphs rs (P0 ++ List.replicate k '\n') = .ok lp ∧
+      lintGroupDoc cls extD iterParagraphs rs D = .ok ld ∧
+      lintGroupDoc cls extPD iterParagraphs rs ((P0 ++ List.replicate k '\n') ++ D) = .ok lpd ∧
+      lpd.Perm (lp ++ shiftLints (P0 ++ List.replicate k '\n').length ld) := by
+  obtain ⟨A0, pb, td, hpb, eP, eD, ePD, hin⟩ :=
+    document_append cls hc P0 D k hk hend hD hq extP extD extPD hloc hokP hokD hnl
+  generalize P0 ++ List.replicate k '\n' = P at *
+  have hbk : pb.kind.isParagraphBreak = true := by rw [hpb]; rfl
+  have ePD' : document cls extPD (P ++ D) = .ok ((A0 ++ [pb]) ++ shiftDoc P.length (A0 ++ [pb]).length td) := ePD
+  refine ⟨lintGroup iterParagraphs rs P (A0 ++ [pb]), lintGroup iterParagraphs rs D td,
+    lintGroup iterParagraphs rs (P ++ D) ((A0 ++ [pb]) ++ shiftDoc P.length (A0 ++ [pb]).length td), ?_, ?_, ?_, ?_⟩
+  · simp only [lintGroupDoc, eP, Except.map]
+  · simp only [lintGroupDoc, eD, Except.map]
+  · simp only [lintGroupDoc, ePD', Except.map]
+  · exact lintGroup_append rs hrs P D A0 pb hbk td _ hin rfl
 
 /-- `XLocal` is satisfiable by a rule that reports something: flag every one-character word -/
 def shortWords : Rule := fun _ piece =>
